@@ -7,6 +7,7 @@ import (
 	"encoding/binary"
 	"fmt"
 	"io"
+	"math"
 	"math/rand"
 	"sort"
 	"strings"
@@ -173,9 +174,10 @@ func observeChunks(ctx context.Context, stream []byte) chunkObs {
 
 // read <hex stream> | <inflate table> [| <expect>]
 // expect (optional, used by the generators to state what the property demands of this input):
-//   malformed            the input is not a well-formed stream: Err must be non-nil
-//   good=<k>             at least the first k chunks lie wholly before the damage
-//   samples=<hex>,<hex>  (wire-dec) the structured documents the stream encodes
+//
+//	malformed            the input is not a well-formed stream: Err must be non-nil
+//	good=<k>             at least the first k chunks lie wholly before the damage
+//	samples=<hex>,<hex>  (wire-dec) the structured documents the stream encodes
 func cmdRead(o *Out, line string, f []string) {
 	sec := sections(f)
 	stream := unhx(sec[0][0])
@@ -795,6 +797,19 @@ func refUnknownDoc(rng *rand.Rand, id int64) []byte {
 		t = -1
 	}
 	kids := []*Node{{Key: "_id", Tag: 0x09, Raw: u64(uint64(id))}, {Key: "type", Tag: 0x10, Raw: u32(uint32(t))}}
+	switch rng.Intn(4) {
+	case 0:
+		// a type that is a number but neither 0 nor 1: fractional and other doubles, large int64 values
+		dbls := []float64{0.5, 0.25, -0.5, 0.999, 1.5, 1.0000000001, 2, -1, 1e-300, math.NaN(), math.Inf(1), 4294967296}
+		kids[1] = &Node{Key: "type", Tag: 0x01, Raw: u64(math.Float64bits(dbls[rng.Intn(len(dbls))]))}
+	case 1:
+		i64s := []int64{2, -1, 1 << 32, 1<<32 + 1, 256, math.MinInt64}
+		kids[1] = &Node{Key: "type", Tag: 0x12, Raw: u64(uint64(i64s[rng.Intn(len(i64s))]))}
+	}
+	if rng.Intn(3) == 0 {
+		// it carries what a metadata document or a chunk would carry: it is still neither
+		kids = append(kids, sub("doc", i64n("foreign", 7)))
+	}
 	if rng.Intn(2) == 0 {
 		kids = append(kids, &Node{Key: "data", Tag: 0x02, Raw: append(u32(2), 'x', 0)})
 	}
